@@ -31,6 +31,7 @@ type scenSpec struct {
 	a, b    string
 	depth   int
 	rich    bool
+	long    bool // the long-lived-flows leg: reduced alphabet, deeper
 }
 
 func main() {
@@ -80,7 +81,7 @@ func main() {
 	}
 
 	r.Rule("explicit-state BFS over event sequences executed on the real tproxy.c (engine K): per scenario (side LAN-ingress|WAN-egress x family v4|v6|v6+hop-by-hop+dstopts x L2|L3 x ordered pair of rule programs x bpf_redirect|bpf_redirect_peer) ALL sequences up to the scenario depth over the alphabet " +
-		"{frame(hook, flow, kind, variant), tick +2s|+10s|+11s|+120s|+121s (+119s), swap rule program, learn domain for the destination, flip health bit of g1 (id 2) or of the high-id group (id 43|45|251) tcp|udp, conn_state_map full, a burst of two datagrams of one flow redirected before dae reads either record} are run, de-duplicated on (contents of conn_state_map, routing_handoff_map, redirect_track with last-seen stamps as exact ages saturated above the largest threshold that reads them, rule program, domain entry, health bits, map-full flag, model state). " +
+		"{frame(hook, flow, kind, variant), tick +2s|+10s|+11s|+120s|+121s (+119s), swap rule program, learn domain for the destination, flip health bit of g1 (id 2) or of the high-id group (id 43|45|251) tcp|udp, conn_state_map full, a burst of two datagrams of one flow redirected before dae reads either record} are run (flows: TCP to port 443, UDP to port 4000, DNS datagrams, a TCP session to port 53, a WAN-opened connection, dae's own), plus a long-lived-flows leg (reduced alphabet {datagram of a UDP flow on the routed and on the reverse hook, SYN / data / FIN of a TCP connection, SYN of a WAN-opened connection and its reply, tick +2s|+10s|+120s, swap rule program; thorough also +119s|+121s, learn domain, LAN-egress datagram, reverse ACK, TCP port 53}, depth 6 quick / 7 thorough) in which flows stay active across more than one idle timeout; all de-duplicated on (contents of conn_state_map, routing_handoff_map, redirect_track with last-seen stamps as exact ages saturated above the largest threshold that reads them, rule program, domain entry, health bits, map-full flag, model state). " +
 		"Every frame is injected from the same snapshot once per header-parsing path (direct packet access / byte-load fallback; truncated frames additionally with a lenient pull) and both runs must give the same verdict and map state; every run is compared with the reference model of the statement; every redirect is followed into dae0peer ingress; every hand-over record is read back, once per redirected frame and after the last frame of the event, by the production controlPlaneCore.RetrieveRoutingResult running on real BPF hash maps loaded with the bytes the C program wrote. " +
 		"states = distinct (kernel state, model state) pairs; transitions = event applications; traces_validated_against_impl = transitions (each is the last step of a distinct event sequence executed on the C program)")
 	r.Assume("engine K: tproxy.c compiled natively and run under a helper/map shim: no verifier/JIT, one CPU (no races between hooks, publish_routing_meta ordering not exercised), bpf_redirect / bpf_redirect_peer / bpf_sk_assign are recorded, not performed; no kernel conntrack")
@@ -90,7 +91,7 @@ func main() {
 	r.Assume("idle time is measured at the tick granularity used (>= 2 s), so the kernel's lazy (1 s) timestamp refresh is not visible; tracking ends when idle time is strictly greater than the documented timeout (120 s / 10 s after FIN or RST / 120 s UDP)")
 	r.Assume("where the statement fixes no verdict (mid-flow TCP segment of an untracked connection, non-initial fragment, truncated frame) the check demands: pass or drop, never a redirect, nothing created, same result on both parsing paths")
 	r.Assume("exhaustion of conn_state_map is outside the statement; safety reading used: a first packet that cannot be tracked gets the verdict of its decision or is dropped (never dropped when plain direct), hand-overs still carry a recoverable record, and tracking-dependent guarantees are not claimed for untracked flows")
-	r.Assume("UDP port 53 without a must rule is 'routed' to the control plane (docs: dae intercepts all UDP traffic to port 53 unless must); traffic towards a local non-dae UDP socket of the host is exempt from proxying (code comment 'NAT loopback'); both are outside the literal statement")
+	r.Assume("traffic to port 53 without a must rule is 'routed' to the control plane (docs: dae intercepts all UDP traffic to port 53 unless must; a TCP session to port 53 is DNS over TCP and is answered by the control plane's DNS controller the same way, control/tcp.go) and is handed over whatever the health bits say; a TCP session to port 53 is otherwise an ordinary tracked connection; traffic towards a local non-dae UDP socket of the host is exempt from proxying (code comment 'NAT loopback'); both are outside the literal statement")
 
 	nw := r.Workers
 	if nw > 16 {
@@ -117,12 +118,13 @@ func main() {
 	var all []violRec
 	var allSamples []map[string]any
 	var states, transitions, frames, fast, slow, first, sticky, peerRuns, altDrops int64
+	var longScen, longStates, longTransitions, longDepth int64
 	var outcomes [5]int64
 	var recFrom [2]int64
 	perScenario := map[string]any{}
 	maxAlphabet := 0
 	for _, sp := range specs {
-		sc := buildScenario(progs, sp.side, sp.v6, sp.ext, sp.l2, sp.peer, sp.short, sp.a, sp.b, sp.depth, sp.rich)
+		sc := buildScenario(progs, sp)
 		if f := os.Getenv("C03_ONLY"); f != "" && !strings.Contains(sc.name, f) { // development aid: run a subset
 			r.CapHit("C03_ONLY set: scenario " + sc.name + " skipped")
 			continue
@@ -142,6 +144,14 @@ func main() {
 		}
 		states += x.states.Load()
 		transitions += x.transitions.Load()
+		if sp.long {
+			longScen++
+			longStates += x.states.Load()
+			longTransitions += x.transitions.Load()
+			if int64(sc.depth) > longDepth {
+				longDepth = int64(sc.depth)
+			}
+		}
 		frames += x.frames.Load()
 		fast += x.fastRuns.Load()
 		slow += x.slowRuns.Load()
@@ -195,6 +205,10 @@ func main() {
 	}
 
 	r.Set("scenarios", len(specs))
+	r.Set("long_lived_leg_scenarios", longScen)
+	r.Set("long_lived_leg_states", longStates)
+	r.Set("long_lived_leg_transitions", longTransitions)
+	r.Set("long_lived_leg_depth", longDepth)
 	r.Set("max_alphabet", maxAlphabet)
 	r.Set("states", states)
 	r.Set("transitions", transitions)
@@ -231,6 +245,13 @@ func specsFor(thorough bool) []scenSpec {
 	var specs []scenSpec
 	if !thorough {
 		const d = 4
+		// long-lived flows: a reduced alphabet, deeper; cheap, so first (flows kept active across more than one idle timeout)
+		specs = append(specs,
+			scenSpec{side: sideLAN, l2: true, a: "dmark", b: "pmust", depth: 6, long: true},
+			scenSpec{side: sideLAN, l2: true, a: "block", b: "proxy", depth: 6, long: true},
+			scenSpec{side: sideWAN, l2: true, a: "proxy", b: "direct", depth: 6, long: true},
+			scenSpec{side: sideWAN, v6: true, l2: false, a: "pmark", b: "block", depth: 6, long: true},
+		)
 		for _, side := range []int{sideLAN, sideWAN} {
 			specs = append(specs,
 				scenSpec{side: side, l2: true, a: "direct", b: "proxy", depth: d},
@@ -262,6 +283,17 @@ func specsFor(thorough bool) []scenSpec {
 		for _, side := range []int{sideLAN, sideWAN} {
 			specs = append(specs, scenSpec{side: side, l2: true, a: "direct", b: "proxy", depth: 5, rich: true})
 			specs = append(specs, scenSpec{side: side, l2: true, a: "pmark", b: "mustrules", depth: 5, rich: true})
+		}
+		// long-lived flows (reduced alphabet): one level deeper than quick, and the richer alphabet at the quick depth
+		for _, side := range []int{sideLAN, sideWAN} {
+			specs = append(specs,
+				scenSpec{side: side, l2: true, a: "dmark", b: "pmust", depth: 7, long: true},
+				scenSpec{side: side, l2: true, a: "block", b: "proxy", depth: 7, long: true},
+				scenSpec{side: side, l2: true, a: "proxy", b: "direct", depth: 7, long: true},
+				scenSpec{side: side, v6: true, l2: false, a: "pmark", b: "block", depth: 7, long: true},
+				scenSpec{side: side, v6: true, ext: true, l2: true, a: "direct", b: "proxy", depth: 6, long: true, rich: true},
+				scenSpec{side: side, l2: true, peer: true, a: "pmust", b: "dmark", depth: 6, long: true, rich: true},
+			)
 		}
 		for _, side := range []int{sideLAN, sideWAN} {
 			specs = append(specs, scenSpec{side: side, l2: true, a: "proxy", b: "block", depth: 6})
@@ -322,7 +354,7 @@ func replay(r *vlib.Run, progs []*ruleProgram, kdrv string) {
 	names := strings.Split(strings.Trim(rec.Detail.Sequence, "[]"), ", ")
 	for _, th := range []bool{false, true} {
 		for _, sp := range specsFor(th) {
-			sc := buildScenario(progs, sp.side, sp.v6, sp.ext, sp.l2, sp.peer, sp.short, sp.a, sp.b, sp.depth, sp.rich)
+			sc := buildScenario(progs, sp)
 			if sc.name != rec.Detail.Scenario {
 				continue
 			}
